@@ -16,6 +16,8 @@ def gens():
 
 def prepare():
     gens()
+    from props import c07
+    c07.gen_lex()
 
 
 def t6():
@@ -54,7 +56,9 @@ def run(tier, seed, t0):
     if not r6.violated and kf is not None:
         raise vlib.Inconclusive("T6 holds on the model but KNOWN_FINDINGS.jsonl still lists the walk: spec and findings file out of sync")
     # (ii)+(iii) sweep under the watchdog
-    summ = json.loads(vlib.run_harness(["c05", od, wd, out, seed, tier], timeout=5000))
+    from props import c07
+    ldata, lmeta = c07.gen_lex()
+    summ = json.loads(vlib.run_harness(["c05", od, wd, out, seed, tier], timeout=5000, env={"VERIF_LEXROWS": ldata}))
     events, mism, r = vlib.judge_trace("Trace_C05", os.path.join(out, "c05.events.ndjson"), timeout=3000)
     drift = [m for m in mism if m[0] == "DRIFT"]
     for m in [m for m in mism if m[0] == "MISMATCH"]:
@@ -83,7 +87,8 @@ def run(tier, seed, t0):
                 "Collection (%d unary, %d binary) on every ordered pair of the %d objects of Gen_C05 (all kinds incl. degenerate "
                 "constructor outputs, circles with zero/negative/NaN/huge radius, 70-point degenerate series, 2^16 coordinates). "
                 "(iii) Parse on model-rendered texts, every (strided) prefix, single-byte damage, 0x00/0x01 prefixes, nesting to depth "
-                "10000, under 4-5 option sets. All run in a worker process under a per-call watchdog (4 s); every abnormal outcome, "
+                "10000, and the ~100 000 texts generated from the state graph of the JSON automaton (JsonLex / Gen_Lex: one text per "
+                "transition, legal or not, in whole-text, member and coordinate position), under 4-5 option sets. All run in a worker process under a per-call watchdog (4 s); every abnormal outcome, "
                 "every walk and every Parse outcome is judged by Trace_C05. distinct_nontrivial = executed cases (all distinct)" % (
                     len(walks), len(json.loads("[]")) or 15, 7, summ["objects"]),
         "samples": [{"T6_lasso_found_by_TLC": lasso, "real_code_on_that_input": lasso_real},
